@@ -203,6 +203,7 @@ class Repo:
         self.modules: dict = {}
         self.extra: dict = {}  # relpath -> text
         self.not_consulted: list = []
+        self.relocated: dict = {}  # vanished anchor -> function of the same bare name taken in its place
         self._load()
 
     def _load(self):
@@ -243,8 +244,24 @@ class Repo:
     def func(self, modname: str, qualname: str) -> FuncInfo:
         m = self.mod(modname)
         if qualname not in m.functions:
-            raise AnalysisError(f"anchor function {modname}:{qualname} vanished")
+            moved = self._relocated(modname, qualname)
+            if moved is None:
+                raise AnalysisError(f"anchor function {modname}:{qualname} vanished")
+            return moved
         return m.functions[qualname]
+
+    def _relocated(self, modname: str, qualname: str) -> Optional[FuncInfo]:
+        """A private helper that moved (method -> module level, another class, another module) keeps its name: when exactly one
+        function of the analysed program still carries the bare name of a vanished anchor, that function is the anchor."""
+        bare = qualname.rsplit(".", 1)[-1]
+        if not bare.startswith("_") or bare.startswith("__"):
+            return None  # public and special names (from_obj, to_cbor, __init__ ...) are shared by many classes
+        same = [f for q, f in self.modules[modname].functions.items() if q.rsplit(".", 1)[-1] == bare]
+        cands = same or [f for m in self.modules.values() for q, f in m.functions.items() if q.rsplit(".", 1)[-1] == bare]
+        if len(cands) != 1:
+            return None
+        self.relocated[f"{modname}:{qualname}"] = f"{cands[0].module.name}:{cands[0].qualname}"
+        return cands[0]
 
     def find_func(self, modname: str, qualname: str) -> Optional[FuncInfo]:
         m = self.modules.get(modname)
